@@ -1382,8 +1382,28 @@ asin = _unary("asin"); acos = _unary("acos")
 
 
 def sq(a): return _coerce(a) * _coerce(a)
-def fmin(a, b): raise Undecided("fmin")
-def fmax(a, b): raise Undecided("fmax")
+def _e_minmax(which):
+    """entrywise fmin / fmax (A-CASADI): numeric operands are decided exactly; symbolic finite operands become an
+    if-then-else term; operands involving nan / symbolic infinities stay undecided"""
+    def f(x, y):
+        if isnum(x) and isnum(y):
+            x, y = num(x), num(y)
+            if x != x or y != y:
+                raise Undecided(which + " of nan")
+            return (x if x >= y else y) if which == "fmax" else (x if x <= y else y)
+        for w in (x, y):
+            if isnum(w):
+                if not _isfinite(num(w)):
+                    raise Undecided(which + " with an infinite operand")
+            elif "__inf" in _consts(w) or "__nan" in _consts(w):
+                raise Undecided(which + " with an infinite operand")
+        tx, ty = tz(x), tz(y)
+        return z3.If(tx >= ty, tx, ty) if which == "fmax" else z3.If(tx <= ty, tx, ty)
+    return f
+
+
+def fmin(a, b): return _binary(a, b, _e_minmax("fmin"), "fmin")
+def fmax(a, b): return _binary(a, b, _e_minmax("fmax"), "fmax")
 
 
 def sparsify(a, *args): return _coerce(a)
